@@ -308,6 +308,14 @@ def gen_cases(rng, tier):
         if case["out"]["kind"] == "wstdout":
             case["opts"]["list"] = False  # `-l -w -` interleaves the binary stream header with the listing
         cases.append(case)
+    # more parts than --suffix-length digits can number (out.9 -> out.10, out.99 -> out.100): no part may be overwritten
+    r2 = rng.fork("manyparts")
+    for per, suffix, total in ((1, 1, 12), (2, 1, 23)) + (((1, 2, 103),) if tier == "thorough" else ()):
+        src = {"type": "good", "format": "records", "records": [_gen_record(r2, DESCS[0]) for _ in range(total)]}
+        o = {"skip": 0, "count": None, "selector": None, "no_compile": False, "fields": None, "exclude": None, "source": None,
+             "classification": None, "multits": False, "list": False}
+        cases.append({"kind": "run", "bucket": "main", "sources": [src], "opts": o,
+                      "out": {"kind": "file", "what": "records", "split": per, "suffix": suffix, "also_mode": None}})
     return cases
 
 
